@@ -34,6 +34,8 @@ def owned_obj_pred(r):
             # Poll<..> and impl Future values are handled by the callee's own analysis
             if adt_of(ty) in ('std::task::Poll',):
                 return False
+            if 'dyn std::future::Future' in ty or ty.startswith('impl std::future::Future'):
+                return False          # a (boxed) future naming the object in its Output: what it owns is audited in the body that defines it
             return True
         return ty == '<M as deadpool::managed::Manager>::Type'
     return pred
@@ -188,7 +190,8 @@ def run(ctx):
                'closure does %s' % [can.resolve_operand(a) for s_ in subs for a in s_.term.args[:2]], construct='users-guard-closure')
         afail = preds.assertion_failure_blocks(cb, can)
         others = [blk for blk in cb.blocks if blk.term.kind == 'call' and blk.idx not in [s_.idx for s_ in subs] and blk.idx not in afail
-                  and not any(n.startswith('<std::sync::Arc') or 'Deref' in n for n in blk.term.callee_names())]
+                  and not any(n.startswith('<std::sync::Arc') or 'Deref' in n or (n.endswith('::load') and 'atomic' in n) or n.split('::')[-1] in ('wrapping_sub', 'wrapping_add')
+                              for n in blk.term.callee_names())]          # (plain reads of the counter - what is left of a compare-exchange loop - change nothing)
         ctx.ob('R03.3', 'guard closure does nothing else', not others, ctx.where(cb), '', construct='users-guard-closure-extra')
         d = ug_drop
         ctx.saw(d)
